@@ -12,6 +12,7 @@
 """
 import copy
 import json
+import os
 import random
 
 import numpy as np
@@ -58,61 +59,79 @@ def build_trees(quick, r):
 
 
 def c07_trace(tid, name, mk, kind, ncalls, r):
+    """Two independently constructed instances, two seeds, three rounds. Every call is logged under (seed, k, input):
+    round 0  instance by instance: inject, K calls
+    round 1  re-injection; instance 2 is additionally rescaled to strength 1 right after the injection (strength 1 =
+             the constructed ranges, so nothing the property talks about may change)
+    round 2  both instances are injected first and then called alternately (two live instances must not share state)
+    Instance 2 has a history before the first injection: a few calls and a strength round trip 0 -> 1."""
     import catalog
     ev = []
     seeds = [0, r.randint(1, 10 ** 6)]
     undrawn = set()
+
+    def fail(seed, what, e):
+        ev.append(dict(a="call", seed=seed, k=0, inp=0, out=0, ctx=0, gadv=[], exc=f"{what}:{type(e).__name__}:{str(e)[:120]}"))
+        return dict(id=tid, cfg=dict(name=name), ev=ev), undrawn
+
     try:
         insts = []
         for inst in (1, 2):
             gw.perturb_globals(1000 * inst + r.randint(0, 999))
             t = mk()
             if inst == 2:
-                # a call history before the seed is injected
+                # a history before the seed is injected: calls, and a strength round trip back to the constructed ranges
                 for h in range(r.randint(1, 4)):
                     t(catalog.fresh_input(kind, h), {})
+                if hasattr(t, "scale_strength"):
+                    t.scale_strength(0.)
+                    t(catalog.fresh_input(kind, 0), {})
+                    t.scale_strength(1.)
             insts.append(t)
     except Exception as e:
-        return dict(id=tid, cfg=dict(name=name), ev=[dict(a="call", seed=0, k=0, inp=0, out=0, ctx=0, gadv=[],
-                                                       exc=f"construct:{type(e).__name__}:{str(e)[:120]}")]), undrawn
+        return fail(0, "construct", e)
     cls = gw.ClassIds()
-    for rep in range(2):  # second round = re-injecting the same seeds
+
+    def one_call(t, seed, k):
+        x = catalog.fresh_input(kind, k)
+        ctx = {}
+        g0 = gw.global_states()
+        try:
+            out = t(x, ctx)
+            exc = ""
+        except Exception as e:
+            out, exc = None, f"call:{type(e).__name__}:{str(e)[:120]}"
+        g1 = gw.global_states()
+        gadv = sorted(n for n in g0 if g0[n] != g1[n])
+        ev.append(dict(a="call", seed=seed, k=k, inp=k % 3, out=cls(gw.canon(out)), ctx=cls(gw.canon(ctx)), gadv=gadv,
+                       exc=exc))
+        return not exc
+
+    for rep in range(3):
         for si, seed in enumerate(seeds):
-            for inst, t in enumerate(insts, start=1):
-                try:
-                    t.set_rng(np.random.default_rng(seed))
-                except Exception as e:
-                    ev.append(dict(a="call", seed=seed, k=0, inp=0, out=0, ctx=0, gadv=[],
-                                   exc=f"set_rng:{type(e).__name__}:{str(e)[:120]}"))
-                    return dict(id=tid, cfg=dict(name=name), ev=ev), undrawn
-                gw.perturb_globals(77 * inst + 13 * rep + si + r.randint(0, 10 ** 6))
-                gens = gw.walk_generators(t)
-                before_nodes = {p: gw.gen_state(g) for p, g in gens.items()}
-                for k in range(ncalls):
-                    x = catalog.fresh_input(kind, k)
-                    ctx = {}
-                    g0 = gw.global_states()
+            if rep < 2:
+                for inst, t in enumerate(insts, start=1):
                     try:
-                        out = t(x, ctx)
-                        exc = ""
+                        t.set_rng(np.random.default_rng(seed))
+                        if rep == 1 and inst == 2 and hasattr(t, "scale_strength"):
+                            t.scale_strength(1.)
                     except Exception as e:
-                        out, exc = None, f"call:{type(e).__name__}:{str(e)[:120]}"
-                    g1 = gw.global_states()
-                    gadv = sorted(n for n in g0 if g0[n] != g1[n])
-                    ev.append(dict(a="call", seed=seed, k=k, inp=k % 3, out=cls(gw.canon(out)), ctx=cls(gw.canon(ctx)),
-                                   gadv=gadv, exc=exc))
-                    if exc:
-                        return dict(id=tid, cfg=dict(name=name), ev=ev), undrawn
-                # diagnostic: generators that were drawn from although they are not derived from the injection
-                after = gw.walk_generators(t)
-                inj_state_ids = set()
-                for p, g in after.items():
-                    if p in before_nodes and gw.gen_state(g) != before_nodes[p]:
-                        pass
-                for p, g in after.items():
-                    if p in before_nodes and gw.gen_state(g) != before_nodes[p]:
-                        # drawn from: was it (re)placed by this injection? compare with a twin generator's identity
-                        undrawn.add(p)
+                        return fail(seed, "set_rng", e)
+                    gw.perturb_globals(77 * inst + 13 * rep + si + r.randint(0, 10 ** 6))
+                    for k in range(ncalls):
+                        if not one_call(t, seed, k):
+                            return dict(id=tid, cfg=dict(name=name), ev=ev), undrawn
+            else:
+                try:
+                    for t in insts:
+                        t.set_rng(np.random.default_rng(seed))
+                except Exception as e:
+                    return fail(seed, "set_rng", e)
+                gw.perturb_globals(991 + si + r.randint(0, 10 ** 6))
+                for k in range(ncalls):
+                    for t in insts:
+                        if not one_call(t, seed, k):
+                            return dict(id=tid, cfg=dict(name=name), ev=ev), undrawn
     return dict(id=tid, cfg=dict(name=name, kind=kind, ncalls=ncalls), ev=ev), undrawn
 
 
@@ -181,7 +200,8 @@ def c08_stacks(quick, r):
     S = []
     names = [n for n, (mk, k) in leaves.items() if k in ("pil", "tensor")]
     if quick:
-        names = sorted(r.sample(names, 10))
+        variants = [n for n in names if "." in n]  # non-default constructor variants are always in
+        names = sorted(set(r.sample(names, 10)) | set(variants))
     for n in names:
         mk, k = leaves[n]
         S.append((f"X({n})", (lambda s, mk=mk, k=k: XTransformWrapper(ImgDS(6, k), mk(), seed=s)), "x", False))
@@ -378,6 +398,13 @@ def c09_trace(tid, name, build, item, r, nreq):
         gw.perturb_globals(r.randint(0, 10 ** 6))
         base = build()
         n = 3 if item == "mode" else len(base)
+        if tid % 2 == 0:
+            # the dataset was already initialised once in the main process (the way a num_workers=0 pass is prepared):
+            # workers forked afterwards must be initialised all the same
+            kw0 = dict(batch_size=2, world_size=1, drop_last=True, updates=100000)
+            if item not in ("concat7", "concat8"):
+                kw0["dataset_len"] = n if item != "collate" else 8
+            base.worker_init_fn(0, **kw0)
         indexed = item in ("mode", "concat7", "concat8")
         if item == "collate":
             n = 8
@@ -417,6 +444,48 @@ def c09_trace(tid, name, build, item, r, nreq):
         ev.append(dict(a="node", path="", sameseed=False, drawn=False, sa=0, sb=0, exc=f"{type(e).__name__}:{str(e)[:160]}"))
     return dict(id=tid, cfg=dict(name=name), ev=ev)
 
+
+
+C08_SUBPROC = r"""
+import json, os, sys, random, warnings
+warnings.filterwarnings("ignore")
+sys.path.insert(0, sys.argv[1]); sys.path.insert(0, sys.argv[2]); sys.path.insert(0, sys.argv[3])
+os.environ["VERIF_REPO"] = sys.argv[1]
+from kdverif import core
+core.use_repo()
+from kdverif import graphwalk as gw
+import rngflow
+want = json.loads(sys.argv[4])
+stacks = {s_[0]: s_ for s_ in rngflow.c08_stacks(False, random.Random(0))}
+out = []
+for name, seed, idxs in want:
+    _, build, item, probe = stacks[name]
+    gw.perturb_globals(4242)
+    ds = build(seed)
+    out.append([name, seed, [[i, gw.canon(rngflow.get_item(ds, item, i))] for i in idxs]])
+print("RESULT" + json.dumps(out))
+"""
+
+
+def c08_other_processes(names, r):
+    """The same stacks in fresh interpreter processes with different string-hash seeds: the value of (seed, i) must not
+    depend on the process it is computed in. Returns {name: {(seed, i): [digests...]}}"""
+    import subprocess
+    import sys as _sys
+    here = os.path.dirname(os.path.abspath(__file__))
+    want = [[n, sd, [0, 1, 3]] for n in names for sd in (0, 4711)]
+    res = {}
+    for hs in ("0", "1", "2"):
+        env = dict(os.environ, PYTHONHASHSEED=hs, OMP_NUM_THREADS="1")
+        p = subprocess.run([_sys.executable, "-c", C08_SUBPROC, core.REPO, os.path.dirname(here), here, json.dumps(want)],
+                           stdout=subprocess.PIPE, stderr=subprocess.PIPE, text=True, env=env, timeout=600)
+        line = [ln for ln in p.stdout.splitlines() if ln.startswith("RESULT")]
+        if not line:
+            raise tlc.TLCError(f"C08 sub-interpreter failed: {p.stderr[-800:]}")
+        for name, seed, vals in json.loads(line[0][6:]):
+            for i, dig in vals:
+                res.setdefault(name, {}).setdefault((seed, i), []).append(dig)
+    return res
 
 
 # ---------------------------------------------------------------- real DataLoader workers
@@ -468,6 +537,35 @@ def c08_loader_trace(tid, name, build, item, probe, r):
     except Exception as e:
         ev.append(dict(a="req", seed=0, i=0, out=0, probe=False, exc=f"loader:{type(e).__name__}:{str(e)[:160]}"))
     return dict(id=tid, cfg=dict(name=name + " via DataLoader(0,2,3 workers)"), ev=ev)
+
+
+def c09_single_worker_trace(tid, name, build, item, r):
+    """one real worker: two loaders with different base seeds must start that worker's generators differently,
+    the same base seed must reproduce them"""
+    ev = []
+    cls = gw.ClassIds()
+    try:
+        gw.perturb_globals(r.randint(0, 10 ** 6))
+        ds = build()
+        b1 = r.randint(0, 10 ** 6)
+        runs = [loader_run(ds, item, 1, b1), loader_run(ds, item, 1, b1 + 1 + r.randint(0, 999)), loader_run(ds, item, 1, b1)]
+        tabs = []
+        for run_ in runs:
+            first, drawn = None, set()
+            for (i, wid, dig, before, after) in run_:
+                if first is None:
+                    first = before
+                drawn |= {p for p in before if after.get(p) != before[p]}
+            tabs.append((first or {}, drawn))
+        for p in sorted(tabs[0][0]):
+            if p in tabs[1][0]:
+                ev.append(dict(a="node", path=p, sameseed=False, drawn=bool(p in tabs[0][1] or p in tabs[1][1]),
+                               sa=cls(tabs[0][0][p]), sb=cls(tabs[1][0][p]), exc=""))
+            if p in tabs[2][0]:
+                ev.append(dict(a="node", path=p, sameseed=True, drawn=False, sa=cls(tabs[0][0][p]), sb=cls(tabs[2][0][p]), exc=""))
+    except Exception as e:
+        ev.append(dict(a="node", path="", sameseed=False, drawn=False, sa=0, sb=0, exc=f"loader1:{type(e).__name__}:{str(e)[:160]}"))
+    return dict(id=tid, cfg=dict(name=name + " via DataLoader(1 worker, two base seeds)"), ev=ev)
 
 
 def c09_loader_trace(tid, name, build, item, r):
@@ -553,6 +651,14 @@ def run(prop, tier, seed):
                                                                                  3 if quick else 15)
         for (name, build, item, probe) in pick:
             traces.append(c08_loader_trace(len(traces) + 1, name, build, item, probe, r))
+        # the same (seed, i) computed in other interpreter processes (different PYTHONHASHSEED)
+        multi = [n_ for n_ in ("Mix", "X(Mix)", "X(probe)", "MV(probe)", "Semseg", "MUGS") if n_ in {s_[0] for s_ in stacks}]
+        probes = {s_[0]: s_[3] for s_ in stacks}
+        for name, table in c08_other_processes(multi, r).items():
+            cls = gw.ClassIds()
+            ev = [dict(a="req", seed=sd, i=i, out=cls(d), probe=bool(probes[name]), exc="")
+                  for (sd, i), digs in sorted(table.items()) for d in digs]
+            traces.append(dict(id=len(traces) + 1, cfg=dict(name=name + " in 3 interpreter processes"), ev=ev))
         rule = ("one case = one seeded wrapper stack: two seeds, three copies (the original and two initialised simulated "
                 "workers), random request orders with repetitions and global-state perturbations; non-trivial = every "
                 "stack (each has a stochastic member); distinct by stack name")
@@ -563,6 +669,7 @@ def run(prop, tier, seed):
             traces.append(c09_trace(tid, name, build, item, r, 6 if quick else 12))
         for (name, build, item) in r.sample([s_ for s_ in stacks if s_[2] in ("x", "mode", "xsemseg")], 4 if quick else 20):
             traces.append(c09_loader_trace(len(traces) + 1, name, build, item, r))
+            traces.append(c09_single_worker_trace(len(traces) + 1, name, build, item, r))
         rule = ("one case = one dataset stack: worker initialisation in two deep copies with different and with equal "
                 "worker seeds, then K requests per copy; one event per member generator (object-graph path); "
                 "non-trivial = every stack; distinct by stack name")
